@@ -1,0 +1,36 @@
+//go:build verif
+
+// Contracts for the govc verifier (/verif/govc). Comment-only: this file adds no code to the
+// package; it is parsed only when the build tag "verif" is set, and only by the verifier.
+// Syntax: see /verif/DESIGN.md section "Contract language".
+
+package core
+
+// ---- effect-free helpers (assumed not to touch modelled state; results unconstrained) ----
+//@ extern-pure Log, Metric, Point, NewTimer, (*Timer).Stop, (*Timer).StopTag, (*Timer).Elapse, loggable, Gorep, logFacti
+//@ extern-pure Inc, IncCounter, (*Context).Log, (*Context).Id, Who, abbreviateCodepath, getCallerLine
+//@ extern-pure (*ServiceStats).Log, (*Parameters).Log
+
+// ---- C07: expiry -------------------------------------------------------------------------
+//@ define expiresOf(f) = ite(has(f,"expires") && is(f["expires"], int64), f["expires"].(int64),
+//@   | ite(has(f,"expires") && is(f["expires"], float64), trunc(f["expires"].(float64)), 0))
+//@ define badExpires(f) = has(f,"expires") && !is(f["expires"], int64) && !is(f["expires"], float64)
+//@ define expiredAt(f, now) = expiresOf(f) != 0 && expiresOf(f) <= now
+//@ define clockSecs() = floordiv(clock(), 1000000000)
+
+//@ func notAfter
+//@   ensures[C07.notAfter_never]  secs == 0 ==> result == false
+//@   ensures[C07.notAfter_given]  then != 0 ==> result == (secs != 0 && secs <= then)
+//@   ensures[C07.notAfter_clock]  then == 0 && secs != 0 ==> result == (secs <= clockSecs())
+//@   ensures[C07.notAfter_clock_mono] clock() >= old(clock())
+
+//@ func getExpiration
+//@   ensures[C07.getExpiration_value] result1 == nil ==> result0 == expiresOf(fact)
+//@   ensures[C07.getExpiration_error] (result1 != nil) <==> badExpires(fact)
+//@   modifies nothing
+
+//@ func checkExpiration
+//@   ensures[C07.check_given] result1 == nil && unixNow != 0 ==> result0 == expiredAt(fact, unixNow)
+//@   ensures[C07.check_clock] result1 == nil && unixNow == 0 ==> result0 == expiredAt(fact, clockSecs())
+//@   ensures[C07.check_error] (result1 != nil) <==> badExpires(fact)
+//@   ensures[C07.check_error_false] result1 != nil ==> !result0
